@@ -321,7 +321,7 @@ class Analysis:
         for k in list(self.consts):
             v = self.consts[k]
             for _ in range(4):
-                v = re.sub(r"kPhasesPer\w+", lambda m: "(" + self.consts.get(m.group(0), "0") + ")", v)
+                v = re.sub(r"kPhasesPer\w+", lambda m: "(" + str(self.consts.get(m.group(0), "0")) + ")", str(v))
             try:
                 self.consts[k] = int(eval(v, {"__builtins__": {}}))
             except Exception:
